@@ -44,6 +44,7 @@ Proof.
   unfold process_downstream_ack.
   destruct (p_len (u_out u) =? 0); [reflexivity|].
   destruct (negb _); [reflexivity|].
+  destruct (p_sentlen (u_out u) =? 0); [reflexivity|].
   match goal with |- context[if ?b then _ else _] => destruct b end; [|reflexivity].
   rewrite qs3_getq_from. reflexivity.
 Qed.
